@@ -1,7 +1,9 @@
 ----------------------------- MODULE MC_Cleanup -----------------------------
 (***************************************************************************)
 (* All texts up to MaxLen characters over the characters the clean-up      *)
-(* passes look at.  Checked on every text:                                 *)
+(* passes look at (Mode "chars"), and all texts of up to MaxLen whole       *)
+(* constructs (Mode "tokens": a look-alike FOLLOWED by a real flag group    *)
+(* needs 11 characters).  Checked on every text:                                 *)
 (*   NoCrash    a text in which every unescaped parenthesis is matched and *)
 (*              no backslash dangles (what the regexp printer produces)    *)
 (*              never makes the passes run out of bounds                   *)
@@ -14,12 +16,17 @@
 (* comparison with the real passes.                                        *)
 (***************************************************************************)
 EXTENDS Cleanup, Json
-CONSTANTS MaxLen, Export
-VARIABLE t
+CONSTANTS MaxLen, Export,
+          Mode      \* "chars": all texts of <= MaxLen characters; "tokens": all texts of <= MaxLen tokens
+VARIABLES t, n
 Alphabet == {"a", "\"", "\\", "(", ")", "?", "i", ":", "|", "-"}
-Init == t = ""
-Next == Len(t) < MaxLen /\ \E ch \in Alphabet : t' = t \o ch
-Spec == Init /\ [][Next]_t
+\* whole constructs the passes look for: real flag groups, flag marks, escaped look-alikes, groups
+\* with and without alternation, quotes and backslashes around them
+Tokens == {"a", "\"", "\\\\", "\\(?i:", "\\(?s:b", "(?i:a)", "(?s:.)", "(?-s:b|c)", "(?i)", "(?:", ")", "|", "\\(?i)", "[\\t\\n\\f\\r ]"}
+Pieces == IF Mode = "tokens" THEN Tokens ELSE Alphabet
+Init == t = "" /\ n = 0
+Next == n < MaxLen /\ \E p \in Pieces : t' = t \o p /\ n' = n + 1
+Spec == Init /\ [][Next]_<<t, n>>
 
 RECURSIVE Balanced(_, _, _)
 Balanced(s, i, depth) ==
